@@ -181,6 +181,7 @@ type Frame struct {
 	cur    *Term // current guard (reach of current block)
 	dbg    map[string][]ssa.Value
 	dbgAll map[string][]ssa.Value
+	dbgConstAt map[ssa.Value][]*ssa.BasicBlock // blocks of the declarations whose initialiser is this constant
 	top    bool
 	noFreeze bool
 }
